@@ -1460,6 +1460,10 @@ func expandLen(t *Term) *Term {
 
 // flattenConcat lists the operands of nested concatenations, most significant first.
 func flattenConcat(t *Term) []*Term {
+	if t.Op == OZExt {
+		// zero-extension is a concatenation with a zero constant (Concat folds it that way)
+		return append([]*Term{BVi(0, t.S.W-t.Args[0].S.W)}, flattenConcat(t.Args[0])...)
+	}
 	if t.Op != OConcat {
 		return []*Term{t}
 	}
